@@ -108,6 +108,7 @@ static void one_case(long long n, uint64_t seed, const std::string& dir)
 	std::vector<std::string> stored;	// read back before teardown: index = seqnum
 	long total = 0;
 	unsigned first_seq = 1;
+	bool drained = true;
 	{
 		Persister *pers;
 		if (filep) { auto *fp = new FilePersister; fp->initialise(dir, "conc." + std::to_string(n), true); pers = fp; } else pers = new MemoryPersister;
@@ -138,7 +139,8 @@ static void one_case(long long n, uint64_t seed, const std::string& dir)
 		for (auto& t : th) t.join();
 		total = (long)nthreads * per;
 		// pipeline: the writer thread drains its queue; wait until the session has numbered everything (watchdog 30 s)
-		for (int i = 0; i < 30000 && (long)(ses.next_send() - first_seq) < total; ++i) std::this_thread::sleep_for(std::chrono::milliseconds(1));
+		for (int i = 0; i < 120000 && (long)(ses.next_send() - first_seq) < total; ++i) std::this_thread::sleep_for(std::chrono::milliseconds(1));
+		if ((long)(ses.next_send() - first_seq) < total) drained = false;	// watchdog: the verdict on counts would be about machine load
 		std::this_thread::sleep_for(std::chrono::milliseconds(5));
 		stored.resize(first_seq + total + 2);
 		for (unsigned s = first_seq; s < first_seq + total; ++s) { f8String to; if (ses.persister()->get(s, to)) stored[s] = to; }
@@ -164,6 +166,7 @@ static void one_case(long long n, uint64_t seed, const std::string& dir)
 		order_hash = (order_hash ^ (uint64_t)(id.size() > 1 ? id[1] : 0)) * 1099511628211ULL;
 		if (s < stored.size() && stored[s] != m && ok) { snprintf(d, sizeof d, "number %u: wire message (id %s, %zu bytes) differs from the stored copy (%zu bytes, id %s)", s, id.c_str(), m.size(), stored[s].size(), field(stored[s], "11").c_str()); R.viol("oracle:stored-copy-differs-from-wire|" + cls, d); ok = false; }
 	}
+	if (!drained) { R.viol("inconclusive:writer-not-drained-after-120s|" + cls, "the pipelined writer had not numbered all queued messages after 120 s"); ok = false; }
 	if ((long)msgs.size() != total && ok) { snprintf(d, sizeof d, "threads=%d per=%d: %ld messages sent, %zu on the wire", nthreads, per, total, msgs.size()); R.viol("oracle:message-count-differs|" + cls, d); ok = false; }
 	for (auto& p : ids) if (p.second != 1 && ok) { R.viol("oracle:message-transmitted-more-than-once|" + cls, "id " + p.first + " appears " + std::to_string(p.second) + " times"); ok = false; }
 	R.stat("runs"); R.stat("messages_sent", total); R.stat("wire_messages", (long long)msgs.size());
